@@ -96,7 +96,10 @@ def programs(draw, backend="pandas"):
     nrows = draw(st.integers(1, 4))
     ncols = draw(st.integers(1, 4))
     ids = iter(range(1000))
-    cols = [draw(_component(POOL[i], next(ids), p, backend, True, plain)) for i in range(ncols)]
+    # (polars itself ignores a "" key in LazyFrame.cast({"": dtype}): a column labelled "" is never coerced there,
+    # whatever pandera asks for - the empty label is only used on pandas)
+    pool = POOL if backend == "pandas" else [n if n else "cc" for n in POOL]
+    cols = [draw(_component(pool[i], next(ids), p, backend, True, plain)) for i in range(ncols)]
     index = None
     if backend == "pandas":
         nlev = draw(st.sampled_from([0, 0, 1, 1, 2, 3] if not plain else [0, 1, 2]))
@@ -143,7 +146,7 @@ def programs(draw, backend="pandas"):
             kind = draw(st.sampled_from(kinds))
             invalid = flag(0.12)
             avoid_unique = plain or flag(0.85)
-            free = [n for n in NEWPOOL + POOL if n not in names and n not in lnames]
+            free = [n for n in NEWPOOL + POOL if n not in names and n not in lnames and (n or backend == "pandas")]
             op = None
             if kind == "add_columns":
                 k = draw(st.integers(1, 2))
